@@ -162,3 +162,15 @@ Definition effective_auth (op default : option (request -> request)) (q : reques
 (* the same on writers as data *)
 Definition effective_cred (op default : option writer) (q : request) : request :=
   effective_auth (option_map write_cred op) (option_map write_cred default) q.
+
+(* ---------- several requests built one after the other on ONE transport ----------
+   The default credential is a setting of the transport that may be replaced between requests (a refreshed token,
+   another scheme, none at all). Every request is built from the setting in force when it is built and from its own
+   operation: nothing is carried over from the requests built before. A step = the operation's writer, the default
+   writer configured at that moment, the request as the operation's parameters have set it. *)
+Definition credential_step := (option writer * option writer * request)%type.
+
+Definition build_request (s : credential_step) : request :=
+  let '(op, default, q0) := s in effective_cred op default q0.
+
+Definition build_all (h : list credential_step) : list request := map build_request h.
